@@ -426,11 +426,17 @@ def main(argv):
                 if u["status"] == "inconclusive":
                     inconclusive.append(f"verus unit {u['id']}: {u['note']}")
                 elif u["status"] == "failed":
+                    u["explained"] = True   # every failed obligation is a listed finding or belongs to another property
                     for fo in u["failed_obligations"]:
+                        # a clause carrying property tags (`// [C07] ..`) is an obligation of those properties only
+                        if fo.get("tags") and prop not in fo["tags"]:
+                            u.setdefault("other_property_failures", []).append(fo["desc"])
+                            continue
                         f = match_finding(findings, prop, u["id"], fo["desc"], fo["loc"])
                         if f:
                             known_hits.append((u["id"], fo["desc"], f))
                             continue
+                        u["explained"] = False
                         violations.append({"harness": {"id": u["id"], "pkg": None, "full": u["id"], "file": u["file"]},
                                            "desc": fo["desc"], "loc": fo["loc"], "engine": "verus",
                                            "verus_output": fo.get("raw", "")})
@@ -540,9 +546,11 @@ def write_evidence(prop, tier, seed, sel, results, vres, prep_log, kani_runs, vi
     vrows = []
     if vres:
         for u in vres["units"]:
-            vrows.append({k: u[k] for k in ("id", "status", "verified", "errors", "time_s", "functions", "dropped", "assumptions") if k in u})
+            vrows.append({k: u[k] for k in ("id", "status", "verified", "errors", "time_s", "functions", "dropped", "assumptions", "other_property_failures") if k in u})
             if u["status"] in ("verified", "failed"):
-                obligations += u["verified"] + u["errors"]
+                # functions whose only failures are listed findings / obligations of another property are reported
+                # (known_findings_reported, other_property_failures) and not counted as obligations of this property
+                obligations += u["verified"] + (0 if u.get("explained") else u["errors"])
                 discharged += u["verified"]
                 solver_s += u.get("time_s", 0.0)
                 fns.update(u.get("functions", []))
